@@ -327,6 +327,23 @@ def _swap01(x):
     return [[x[i][j] for i in range(len(x))] for j in range(len(x[0]))]
 
 
+def _insert(arr, idx, values):
+    """numpy.insert on a 1-D list: positions refer to the array BEFORE insertion."""
+    arr = list(arr)
+    idxs = [_int(i) for i in idx] if isinstance(idx, (list, tuple)) else [_int(idx)]
+    vals = list(values) if isinstance(values, (list, tuple)) else [values] * len(idxs)
+    if len(vals) == 1 and len(idxs) > 1:
+        vals = vals * len(idxs)
+    if len(vals) != len(idxs):
+        raise Undecided("insert: values do not match the positions")
+    order = sorted(range(len(idxs)), key=lambda j: (idxs[j], j))
+    out = list(arr)
+    for shift, j in enumerate(order):
+        pos = min(idxs[j], len(arr)) + shift  # jax clips out-of-range positions silently
+        out.insert(pos, vals[j])
+    return out
+
+
 def _axis(k, a, pos=1):
     ax = k.get("axis", a[pos] if len(a) > pos else None)
     return None if ax is None else _int(ax)
@@ -385,6 +402,7 @@ def externals(interp_truth=None):
         "power": lambda a, k: arith("**", a[0], a[1]), "add": lambda a, k: arith("+", a[0], a[1]), "subtract": lambda a, k: arith("-", a[0], a[1]),
         "clip": lambda a, k: _map(lambda v: (to_poly(v) if (a[1] if len(a) > 1 else k.get("min_value")) is None else fn("max", to_poly(v), to_poly(a[1] if len(a) > 1 else k.get("min_value")))), a[0]),
         "ravel": lambda a, k: _flatten(a[0]),
+        "insert": lambda a, k: _insert(a[0], a[1], a[2]),
         "isfinite": lambda a, k: _map(lambda v: not any(n_ in ("INF", "NEGINF", "NAN", "DIVZERO") for n_ in _plain(to_poly(v))), a[0]),
         "boolean_mask": lambda a, k: [x for x, m_ in zip(a[0], a[1]) if (m_ if isinstance(m_, bool) else truth(m_))],
         "abs": _absf, "exp": _ew1("exp"), "log": _ew1("log"),
